@@ -1453,7 +1453,7 @@ func genIssuance(c *ctx, emit func(ev)) {
 			}
 			if t == 5 {
 				// every bit of the list's length prefix, for every width of that prefix that occurs (one and two bytes)
-				for _, n5 := range []int{1, 2, 3, c.tierInt(4, 8)} {
+				for _, n5 := range []int{1, 2, 3, c.tierFixed(4, 8)} {
 					for b := 0; b < 16; b++ {
 						run(5, n5, 16, 0, ev{"kind": "Flip", "f": "len", "bit": b})
 					}
@@ -1481,7 +1481,7 @@ func genIssuance(c *ctx, emit func(ev)) {
 			}
 		}
 		// type 5 list mutations
-		maxN := c.tierInt(3, 5)
+		maxN := c.tierFixed(3, 5)
 		for n := 1; n <= maxN; n++ {
 			for i := 1; i <= n; i++ {
 				run(5, n, 16, 0, ev{"kind": "Drop", "i": i})
